@@ -9,6 +9,7 @@ import GeoModel.Contains
 import GeoModel.Gen.Masks
 import GeoModel.Gen.Enums
 import GeoProofs.Lemmas.SegmentSpec
+import GeoProofs.Lemmas.LocateLemmas
 
 namespace Geo.Proofs.C02
 open Geo
@@ -76,5 +77,130 @@ theorem lineCoord_iff (a b p : Pt) : lineCoord a b p = true ↔ Geo.Proofs.Kerne
 theorem lineLine_iff (a b c d : Pt) :
     lineLine a b c d = true ↔ ∃ p, Geo.Proofs.Kernel.SegMem p a b ∧ Geo.Proofs.Kernel.SegMem p c d :=
   Geo.Proofs.Kernel.lineLine_iff a b c d
+
+/-! ### the two winding computations agree -/
+
+/-- [T] geo's winding loop (`coord_pos_relative_to_ring`), when it does not stop at a boundary hit,
+adds up exactly the increments of the specification's `windingE` (both are Sunday's algorithm: the
+branch conditions `s.y ≤ p.y`, `e.y ≥ p.y ∧ e.y ≠ p.y`, orientation sign coincide edge by edge). -/
+theorem ringWinding_eq (p : Pt) (es : List (Pt × Pt)) (w w' : Int)
+    (h : ringWinding p es w = some w') :
+    w' = w + (es.map (fun se => Loc.specInc (EPt.ofPt p) se.1 se.2)).sum :=
+  Loc.ringWinding_eq p es w w' h
+
+example : (12 : Int) = 11 + ([((⟨0, 0⟩ : Pt), (⟨4, 0⟩ : Pt)), (⟨4, 0⟩, ⟨0, 4⟩), (⟨0, 4⟩, ⟨0, 0⟩)].map
+    (fun se => Loc.specInc (EPt.ofPt ⟨1, 1⟩) se.1 se.2)).sum :=
+  ringWinding_eq ⟨1, 1⟩ _ 11 12 (by decide +kernel)
+
+/-- [T] the specification's winding number is the sum of these increments. -/
+theorem windingE_eq_sum (p : EPt) (ring : List Pt) :
+    windingE p ring = ((segs ring).map (fun se => Loc.specInc p se.1 se.2)).sum :=
+  Loc.windingE_eq_sum p ring
+
+/-- [T] off the ring, `coord_pos_relative_to_ring` answers `Inside` exactly when the
+specification's winding number is non-zero. -/
+theorem ringPos_eq_spec (p : Pt) (ring : List Pt) (h2 : 2 ≤ ring.length)
+    (hb : ringPos p ring ≠ .onBoundary) :
+    ringPos p ring = .inside ↔ windingE (EPt.ofPt p) ring ≠ 0 :=
+  Loc.ringPos_eq_spec p ring h2 hb
+
+example : ringPos ⟨1, 1⟩ [⟨0, 0⟩, ⟨4, 0⟩, ⟨0, 4⟩, ⟨0, 0⟩] = .inside ↔
+    windingE (EPt.ofPt ⟨1, 1⟩) [⟨0, 0⟩, ⟨4, 0⟩, ⟨0, 4⟩, ⟨0, 0⟩] ≠ 0 :=
+  ringPos_eq_spec _ _ (by simp) (by decide +kernel)
+
+/-! ### `coordinate_position` is the specification's point location -/
+
+/-- [T] Point. -/
+theorem coordPos_point_eq_locate (q p : Pt) : coordPos (.point q) p = locate (.point q) p :=
+  Loc.coordPos_point_eq_locate q p
+
+/-- [T] MultiPoint. -/
+theorem coordPos_multiPoint_eq_locate (qs : List Pt) (p : Pt) :
+    coordPos (.multiPoint qs) p = locate (.multiPoint qs) p :=
+  Loc.coordPos_multiPoint_eq_locate qs p
+
+/-- [T] Line: end points are boundary, other points of the segment interior (a zero-length line is
+its point). -/
+theorem coordPos_line_eq_locate (a b p : Pt) : coordPos (.line a b) p = locate (.line a b) p :=
+  Loc.coordPos_line_eq_locate a b p
+
+/-- [T] LineString, open or closed, any number of coordinates; includes soundness of the
+bounding-box early return (a point outside the bounding box lies on no segment). -/
+theorem coordPos_lineString_eq_locate (cs : List Pt) (p : Pt) :
+    coordPos (.lineString cs) p = locate (.lineString cs) p :=
+  Loc.coordPos_lineString_eq_locate cs p
+
+/-- [T] `LineString: Intersects<Coord>` with its bounding-box rejection is "on some segment". -/
+theorem lineStringCoord_eq (cs : List Pt) (p : Pt) : lineStringCoord cs p = onAnySeg p (segs cs) :=
+  Loc.lineStringCoord_eq cs p
+
+/-- [T] Rect with positive width and height: the four comparisons are the location relative to the
+ring of `Rect::to_polygon`. -/
+theorem coordPos_rect_eq_locate (mn mx p : Pt) (hx : mn.x < mx.x) (hy : mn.y < mx.y) :
+    coordPos (.rect mn mx) p = locate (.rect mn mx) p :=
+  Loc.coordPos_rect_eq_locate mn mx p hx hy
+
+example : coordPos (.rect ⟨0, 0⟩ ⟨2, 3⟩) ⟨2, 1⟩ = locate (.rect ⟨0, 0⟩ ⟨2, 3⟩) ⟨2, 1⟩ :=
+  coordPos_rect_eq_locate _ _ _ (by norm_num) (by norm_num)
+
+/-- [T] Triangle (after the fix), for every vertex order, degenerate or not: the strict same-sign
+test of the three edge orientations is "winding number of `[a, b, c, a]` non-zero" off the edges. -/
+theorem coordPos_triangle_eq_locate (a b c p : Pt) :
+    coordPos (.triangle a b c) p = locate (.triangle a b c) p :=
+  Loc.coordPos_triangle_eq_locate a b c p
+
+/-- [T] Polygon with closed rings, at a query point `p` for which (H1) if `p` is on a hole ring it
+is not outside the shell ring, and (H2) if `p` is strictly inside a hole it is on no hole ring.
+Both hold at every point of an OGC-valid polygon (holes lie in the closed shell; hole rings do not
+enter each other's interior). Full statement (no H1/H2): false, the Rust loop returns at the shell
+/ first containing hole without looking at the remaining rings. -/
+theorem coordPos_polygon_eq_locate_partial (poly : Poly) (p : Pt)
+    (hext : poly.ext.head? = poly.ext.getLast? ∧ 2 ≤ poly.ext.length)
+    (hints : ∀ h ∈ poly.ints, h.head? = h.getLast? ∧ 2 ≤ h.length)
+    (H1 : ∀ h ∈ poly.ints, onAnySeg p (segs h) = true → ringPos p poly.ext ≠ .outside)
+    (H2 : ∀ h ∈ poly.ints, ∀ h' ∈ poly.ints, ringPos p h = .inside → onAnySeg p (segs h') = false) :
+    coordPos (.polygon poly) p = locate (.polygon poly) p :=
+  Loc.coordPos_polygon_eq_locate_at poly p hext hints H1 H2
+
+example : coordPos (.polygon ⟨[⟨0, 0⟩, ⟨10, 0⟩, ⟨10, 10⟩, ⟨0, 10⟩, ⟨0, 0⟩],
+      [[⟨2, 2⟩, ⟨4, 2⟩, ⟨4, 4⟩, ⟨2, 4⟩, ⟨2, 2⟩], [⟨6, 6⟩, ⟨8, 6⟩, ⟨8, 8⟩, ⟨6, 8⟩, ⟨6, 6⟩]]⟩) ⟨4, 3⟩ =
+    locate (.polygon ⟨[⟨0, 0⟩, ⟨10, 0⟩, ⟨10, 10⟩, ⟨0, 10⟩, ⟨0, 0⟩],
+      [[⟨2, 2⟩, ⟨4, 2⟩, ⟨4, 4⟩, ⟨2, 4⟩, ⟨2, 2⟩], [⟨6, 6⟩, ⟨8, 6⟩, ⟨8, 8⟩, ⟨6, 8⟩, ⟨6, 6⟩]]⟩) ⟨4, 3⟩ :=
+  coordPos_polygon_eq_locate_partial _ _ (by decide +kernel) (by decide +kernel) (by decide +kernel)
+    (by decide +kernel)
+
+/-- [T] MultiPolygon (after the fix: one boundary hit when any member reports boundary): if the
+members' positions are the specification's and no point is interior to one member and on the
+boundary of another (valid MultiPolygon), the collection's position is the specification's. -/
+theorem coordPos_multiPolygon_eq_locate_partial (ps : List Poly) (p : Pt)
+    (hm : ∀ m ∈ ps, coordPos (.polygon m) p = locate (.polygon m) p)
+    (hd : ∀ m ∈ ps, ∀ m' ∈ ps, locate (.polygon m) p = .inside → locate (.polygon m') p ≠ .onBoundary) :
+    coordPos (.multiPolygon ps) p = locate (.multiPolygon ps) p :=
+  Loc.coordPos_multiPolygon_eq_locate_of ps p hm hd
+
+example : coordPos (.multiPolygon [⟨[⟨0, 0⟩, ⟨4, 0⟩, ⟨4, 4⟩, ⟨0, 4⟩, ⟨0, 0⟩], []⟩,
+      ⟨[⟨4, 4⟩, ⟨8, 4⟩, ⟨8, 8⟩, ⟨4, 8⟩, ⟨4, 4⟩], []⟩]) ⟨4, 4⟩ =
+    locate (.multiPolygon [⟨[⟨0, 0⟩, ⟨4, 0⟩, ⟨4, 4⟩, ⟨0, 4⟩, ⟨0, 0⟩], []⟩,
+      ⟨[⟨4, 4⟩, ⟨8, 4⟩, ⟨8, 8⟩, ⟨4, 8⟩, ⟨4, 4⟩], []⟩]) ⟨4, 4⟩ :=
+  coordPos_multiPolygon_eq_locate_partial _ _ (by decide +kernel) (by decide +kernel)
+
+/-- [T] witness of known finding K9: the end point shared by two open members is interior by the
+mod-2 rule, the MultiLineString clause (members add to one shared counter) answers `Outside`. -/
+theorem coordPos_mls_ne_locate_witness :
+    coordPos (.multiLineString [[⟨0, 0⟩, ⟨1, 0⟩], [⟨1, 0⟩, ⟨2, 0⟩]]) ⟨1, 0⟩ = .outside ∧
+    locate (.multiLineString [[⟨0, 0⟩, ⟨1, 0⟩], [⟨1, 0⟩, ⟨2, 0⟩]]) ⟨1, 0⟩ = .inside := by
+  decide +kernel
+
+/-- [T] MultiLineString away from K9: when `p` is an end point of at most one open member, the
+position is the specification's. Full statement (no hypothesis): false, see
+`coordPos_mls_ne_locate_witness`. -/
+theorem coordPos_mls_eq_locate_partial (ls : List (List Pt)) (p : Pt)
+    (h : endpointCount p ls ≤ 1) :
+    coordPos (.multiLineString ls) p = locate (.multiLineString ls) p :=
+  Loc.coordPos_mls_eq_locate_of_count ls p h
+
+example : coordPos (.multiLineString [[⟨0, 0⟩, ⟨1, 0⟩], [⟨1, 0⟩, ⟨2, 0⟩]]) ⟨2, 0⟩ =
+    locate (.multiLineString [[⟨0, 0⟩, ⟨1, 0⟩], [⟨1, 0⟩, ⟨2, 0⟩]]) ⟨2, 0⟩ :=
+  coordPos_mls_eq_locate_partial _ _ (by decide +kernel)
 
 end Geo.Proofs.C02
